@@ -95,9 +95,6 @@ func checkC08(w *World, r *Report) {
 	// ---- (a) precedence table
 	precFn := w.fn("getOperatorPrecedence")
 	precCases, _ := w.stringSwitchCases(w.decl(precFn), true)
-	if len(precCases) < 10 {
-		cannotDecide("precedence switch not found in getOperatorPrecedence")
-	}
 	prec := map[string]int64{}
 	for op, cc := range precCases {
 		val := int64(-1)
@@ -109,6 +106,37 @@ func checkC08(w *World, r *Report) {
 			}
 		}
 		prec[op] = val
+	}
+	if len(precCases) < 10 {
+		// table form: getOperatorPrecedence looks the operator up in a package-level
+		// map[string]<int> literal
+		prec = map[string]int64{}
+		ast.Inspect(w.decl(precFn).Body, func(n ast.Node) bool {
+			ix, ok := n.(*ast.IndexExpr)
+			if !ok {
+				return true
+			}
+			lit := w.pkgVarLiteral(ix.X)
+			if lit == nil {
+				return true
+			}
+			for _, el := range lit.Elts {
+				kv, ok := el.(*ast.KeyValueExpr)
+				if !ok {
+					continue
+				}
+				ktv, vtv := w.Info.Types[kv.Key], w.Info.Types[kv.Value]
+				if ktv.Value == nil || ktv.Value.Kind() != constant.String || vtv.Value == nil {
+					continue
+				}
+				v, _ := constant.Int64Val(vtv.Value)
+				prec[constant.StringVal(ktv.Value)] = v
+			}
+			return true
+		})
+		if len(prec) < 10 {
+			cannotDecide("precedence table not found in getOperatorPrecedence (neither a string switch nor a lookup in a package-level map literal)")
+		}
 	}
 	// default (lowest)
 	lowest := int64(0)
@@ -284,6 +312,54 @@ func checkC08(w *World, r *Report) {
 					}
 				}
 				checkWords(fname, words, x)
+			case *ast.IndexExpr:
+				// operatorWords[tok.Value]: the table form of the disjunction;
+				// twoWordOperators[tok.Value]: first word -> second word of the multi-word operators
+				sel, ok := ast.Unparen(x.Index).(*ast.SelectorExpr)
+				if !ok || sel.Sel.Name != "Value" {
+					return true
+				}
+				lit := w.pkgVarLiteral(x.X)
+				if lit == nil {
+					return true
+				}
+				mt, ok := w.Info.TypeOf(x.X).Underlying().(*types.Map)
+				if !ok {
+					return true
+				}
+				words := map[string]bool{}
+				for _, el := range lit.Elts {
+					kv, ok := el.(*ast.KeyValueExpr)
+					if !ok {
+						continue
+					}
+					ktv := w.Info.Types[kv.Key]
+					if ktv.Value == nil || ktv.Value.Kind() != constant.String {
+						continue
+					}
+					k := constant.StringVal(ktv.Value)
+					vtv := w.Info.Types[kv.Value]
+					switch {
+					case types.Identical(mt.Elem().Underlying(), types.Typ[types.Bool]):
+						if vtv.Value != nil && vtv.Value.Kind() == constant.Bool && constant.BoolVal(vtv.Value) {
+							words[k] = true
+						}
+					case types.Identical(mt.Elem().Underlying(), types.Typ[types.String]):
+						if vtv.Value != nil && vtv.Value.Kind() == constant.String {
+							s := k + " " + constant.StringVal(vtv.Value)
+							if isWordOp(s) {
+								assembled[s] = true
+								if !multi[s] {
+									r.bad("R08.1", fname, fmt.Sprintf("assembled operator %q", s), w.pos(x), "the parser assembles a multi-word operator that has no precedence entry")
+								}
+							}
+						}
+					}
+				}
+				if len(words) > 0 && !seenTop[lit] {
+					seenTop[lit] = true
+					checkWords(fname, words, x)
+				}
 			case *ast.ReturnStmt:
 				for _, res := range x.Results {
 					if tv := w.Info.Types[res]; tv.Value != nil && tv.Value.Kind() == constant.String {
@@ -1266,4 +1342,39 @@ func checkRelationalNumericFirst(w *World, r *Report, evalCases map[string]*ast.
 	if n == 0 {
 		r.ok("R08.9", ssaName(evalFn), "relational operators never order strings", "-", "no string ordering in evaluateBinaryOp or the helpers of its relational arms", false)
 	}
+}
+
+// pkgVarLiteral: e denotes a package-level variable of the package whose initialiser is a
+// composite literal (a read-only table): returns the literal.
+func (w *World) pkgVarLiteral(e ast.Expr) *ast.CompositeLit {
+	id, ok := ast.Unparen(e).(*ast.Ident)
+	if !ok {
+		return nil
+	}
+	v, ok := w.Info.Uses[id].(*types.Var)
+	if !ok || v.Pkg() == nil || v.Pkg().Path() != twigPath || v.Parent() != v.Pkg().Scope() {
+		return nil
+	}
+	for _, f := range w.Files {
+		for _, d := range f.Decls {
+			gd, ok := d.(*ast.GenDecl)
+			if !ok || gd.Tok != token.VAR {
+				continue
+			}
+			for _, sp := range gd.Specs {
+				vs, ok := sp.(*ast.ValueSpec)
+				if !ok {
+					continue
+				}
+				for i, nm := range vs.Names {
+					if w.Info.Defs[nm] == types.Object(v) && i < len(vs.Values) {
+						if cl, ok := ast.Unparen(vs.Values[i]).(*ast.CompositeLit); ok {
+							return cl
+						}
+					}
+				}
+			}
+		}
+	}
+	return nil
 }
